@@ -403,5 +403,53 @@ def r05_7(ctx):
     return r
 
 
+def r05_8(ctx):
+    """SrtpContext::unprotect does not authenticate the header bytes it received: it authenticates the header it PARSED,
+    serialised again (marshal_header_into -> write_to). That is sound exactly as long as parse-then-write reproduces the
+    received header bit for bit; any normalisation in RtpHeader::parse is a set of header bits an attacker may flip for
+    free. The one field with an optional presence is the extension block: X = 1 with a zero-length block is legal and
+    distinct from X = 0 - if parse reports it as 'no extension', setting the X bit and splicing a 4-byte block into a
+    captured packet yields a datagram that differs in five octets and still authenticates. Decided: on the X-bit-set edge
+    of RtpHeader::parse the extension is Some(..) on every path to a successful return - never None, never conditional
+    on the block's length or contents."""
+    r = RuleResult("R05.8", "K4/dataflow", "RtpHeader::parse keeps an extension block whenever the X bit is set (authenticated header = received header)")
+    fn = "rtp::RtpHeader::parse"
+    b = ctx.body(fn)
+    r.scope.append(fn)
+
+    def xbit(term):
+        return term[0] == "bin" and term[1] == "Ne" and mir.int_value(term[3]) == 0 and term[2][0] == "bin" and \
+            term[2][1] == "BitAnd" and mir.int_value(term[2][3]) == 0x10
+    xedges = core.guard_edges(b, lambda term, meaning, *_: meaning is True and (xbit(term) or (term[0] == "var" and len(term) > 2 and any(xbit(d) for d in b.var_def_terms(term[2])))))
+    r.need("X-bit test in RtpHeader::parse", len(xedges), 1)
+    opt_locals = [i for i, l in enumerate(b.locals) if l["ty"].startswith("std::option::Option<rtp::RtpHeaderExtension")]
+    defs = b.defs()
+    be = b.back_edges()
+    bad, good = [], []
+    for sb, tgt in xedges:
+        reach = b.reachable([tgt], cut_edges=be)
+        for l in opt_locals:
+            for d in defs.get(l, []):
+                if d[1] not in reach:
+                    continue
+                t = b._term_def(d, 0, (l,))
+                if t[0] == "agg" and t[2] == "Some":
+                    good.append(d[1])
+                elif t[0] in ("var", "phi") or (t[0] == "agg" and t[2] == "None") or t[0] == "call":
+                    # a copy of another Option local is fine if that one is handled; a call (bool::then, filter, ..) or None is not
+                    if t[0] == "var":
+                        continue
+                    bad.append((d[1], mir.show(t, 60)))
+    if not good and not bad:
+        raise core.CheckerError("R05.8: extension assignment on the X-bit edge not found")
+    for bi, what in bad:
+        r.violate(fn, "ext:dropped", b.where(bi),
+                  "with the X bit set the parsed header may carry no extension (%s): the re-serialised header that is authenticated then lacks "
+                  "the X bit and the extension word, so those received octets are not covered by the tag" % what)
+    for bi in good[:1] if not bad else []:
+        r.ok({"site": b.where(bi), "X=1": "extension is Some(profile, data) whatever the block length"})
+    return r
+
+
 def run(ctx):
-    return [r05_1(ctx), r05_2(ctx), r05_3(ctx), r05_4(ctx), r05_5(ctx), r05_6(ctx), r05_7(ctx)]
+    return [r05_1(ctx), r05_2(ctx), r05_3(ctx), r05_4(ctx), r05_5(ctx), r05_6(ctx), r05_7(ctx), r05_8(ctx)]
